@@ -11,8 +11,13 @@ pub fn multi_link(links: usize, hbfs: usize, shape_idx: usize, err_pairs: bool, 
         let hs: Vec<HbfShape> = (0..hbfs).map(|i| shapes[(shape_idx + i) % shapes.len()].clone()).collect();
         let mut pk = grammar::render_link(&cfg, &hs);
         if err_pairs {
-            for p in pk.iter_mut() {
-                p.packet.rdh.rdh1_reserved = 1; // E10
+            let n = pk.len();
+            for (i, p) in pk.iter_mut().enumerate() {
+                // even links: an E10 + E11 pair on every RDH; odd links: E11 on every RDH and E10 only on the last,
+                // so that the first-seen order of the error codes differs between links
+                if l % 2 == 0 || i + 1 == n {
+                    p.packet.rdh.rdh1_reserved = 1; // E10
+                }
                 p.packet.rdh.pages_counter += 7; // E11
             }
         }
